@@ -22,6 +22,18 @@ TEXTS = ["alpha", "Alpha", "ALPHA", "alph", "alphaa", " alpha", "alpha ", "alpha
 def cases(seed, tier):
     rng = random.Random(seed * 131 + 7)
     out = [(p, t) for p in PATTERNS for t in TEXTS]
+    # history: the same questions again in an order with revisits (the answer may not depend on which patterns were
+    # evaluated before on this thread): a working set of recently used patterns, revisited, extended and abandoned at random
+    recent = []
+    for _ in range(4000 if tier == "quick" else 40000):
+        if recent and rng.random() < 0.55:
+            p = rng.choice(recent[-3:] if rng.random() < 0.6 else recent)
+        else:
+            p = rng.choice(PATTERNS)
+            recent.append(p)
+            if len(recent) > 40:
+                recent.pop(rng.randrange(len(recent)))
+        out.append((p, rng.choice(TEXTS)))
     if tier != "quick":
         # random patterns over a small alphabet of regex atoms (many are invalid: both outcomes are exercised)
         atoms = ["a", "l", "p", "h", ".", "*", "+", "?", "^", "$", "(", ")", "[", "]", "|", "\\d", "\\s", "\\b", "{2}", "(?i)", "A", "-", " "]
@@ -46,7 +58,7 @@ def run(res, direction):
     dist = {"match": 0, "nomatch": 0, "invalid": 0}
     failing = 0
     other = 0
-    for (p, t), l in zip(cs, lines):
+    for idx, ((p, t), l) in enumerate(zip(cs, lines)):
         f = dict(x.split("=", 1) for x in l.split(" "))
         dist[f["oracle"]] += 1
         want = "1" if f["oracle"] == "match" else "0"
@@ -66,7 +78,10 @@ def run(res, direction):
             res.violation("failing-input",
                           "built-in Like impl %s answers %s for text %r and pattern %r but the regex crate says %s"
                           % (", ".join(names[i] for i in bad if i < 6), "true" if want == "0" else "false", t, p, f["oracle"]),
-                          {"like_case": {"pattern": p, "text": t}, "oracle": f["oracle"], "impls": f["impls"]})
+                          {"like_case": {"pattern": p, "text": t}, "oracle": f["oracle"], "impls": f["impls"],
+                           "history": [[a, b] for a, b in cs[:idx + 1]],
+                           "note": "the answer may depend on the evaluations made before on the same thread: `history` is every (pattern, text) "
+                                   "evaluated in this process up to and including the failing one; the replay runs all of them"})
     res.streams["builtin-like-impls"] = {"pairs": len(cs), "oracle": dist, "patterns": len({p for p, _ in cs}), "texts": len(TEXTS),
                                          "disagreements_this_direction": failing, "disagreements_other_direction": other}
     if not failing:
@@ -79,7 +94,8 @@ def replay(v):
     if not ok:
         print("harness rt does not build")
         return 1
-    l = vlib.run_harness("rt", ["like\t%s\t%s" % (vlib.hx(c["pattern"]), vlib.hx(c["text"]))], env_extra={"RT_QUIET": "1"})[0]
+    hist = v.get("history") or [[c["pattern"], c["text"]]]
+    l = vlib.run_harness("rt", ["like\t%s\t%s" % (vlib.hx(a), vlib.hx(b)) for a, b in hist], env_extra={"RT_QUIET": "1"})[-1]
     f = dict(x.split("=", 1) for x in l.split(" "))
     want = "1" if f["oracle"] == "match" else "0"
     bad = any(b != want for b in f["impls"])
